@@ -119,6 +119,42 @@ Proof.
   cbn [bind]. eauto.
 Qed.
 
+(* _note_missing_children: only the counter and the pending list are read, pending entries are appended *)
+Lemma wp_iter_In {A} (f : A -> W unit) xs : (forall x, In x xs -> wp (f x) T) -> wp (w_iter f xs) T.
+Proof.
+  induction xs as [|x xs IH]; intros H; cbn [w_iter].
+  - apply wp_ret. exact I.
+  - apply wp_seq; [apply H; left; reflexivity | intros _; apply IH; intros y Hy; apply H; right; exact Hy].
+Qed.
+
+Lemma note_missing_children_wp cur : lref m cur -> wp (note_missing_children m a cur) T.
+Proof.
+  intros Hl. unfold note_missing_children.
+  eapply wp_bind_lift; [apply container_children_kids, Hl|]. apply wp_bind_mget; intro ms0. cbv zeta.
+  apply wp_iter_In. intros [i c] Hin. cbn [fst snd].
+  apply enumerate_nth in Hin as [_ Hin]. rewrite Nat.sub_0_r in Hin.
+  assert (Hcr : node_at ns (cur ++ [i]) = Some c) by (rewrite (node_at_kids _ _ _ Hl); exact Hin).
+  destruct (usage_is (node_usage c) "R") eqn:ER; cbn [negb]; [|wunit].
+  destruct c as [id ty nm u p rep pm | s0].
+  - (* a required loop: only one that begins with a segment is looked at; is_loop_match reads the same x12path *)
+    destruct (pm_nodes pm) as [|[id1 ty1 nm1 u1 p1 rep1 pm1 | s1] rest] eqn:E; [wunit | wunit |].
+    cbn [node_usage] in ER.
+    destruct (wf_loop_seg _ _ _ _ _ _ _ _ _ _ Hcr E) as [_ N].
+    destruct (N (usage_R_not_N _ ER)) as [[xp Hxp] _].
+    eapply wp_bind_lift; [exact Hxp|]. apply wp_bind_cget; intro cn.
+    destruct (get_count cn xp <? 1)%Z; cbn [negb]; [|wunit].
+    assert (Hl' : lref m (removelast ((cur ++ [i]) ++ [0]))).
+    { rewrite removelast_snoc. right. eexists. split; [exact Hcr | reflexivity]. }
+    destruct (parent_id_ok m _ Hl') as [pid Hpid]. eapply wp_bind_lift; [exact Hpid|].
+    match goal with |- wp (if ?b then _ else _) _ => destruct b end; [wunit | apply append_missing_wp, Hl'].
+  - destruct (wf_seg _ _ Hcr) as [_ [[xp Hxp] _]].
+    eapply wp_bind_lift; [exact Hxp|]. apply wp_bind_cget; intro cn.
+    destruct (get_count cn xp <? 1)%Z; cbn [negb]; [|wunit].
+    assert (Hl' : lref m (removelast (cur ++ [i]))) by (rewrite removelast_snoc; exact Hl).
+    destruct (parent_id_ok m _ Hl') as [pid Hpid]. eapply wp_bind_lift; [exact Hpid|].
+    match goal with |- wp (if ?b then _ else _) _ => destruct b end; [wunit | apply append_missing_wp, Hl'].
+Qed.
+
 (* ------------------------------------------------------------------ *)
 (* _is_loop_match answers True only for a loop that the segment can open *)
 
@@ -427,7 +463,7 @@ Proof.
   intros lm H E. split; [exact Hne|]. exists n. split; [exact Hn | apply H, E].
 Qed.
 
-Definition wl_scan (orig_loop cur : nref) (pop : list nref) :=
+Definition wl_scan (orig orig_loop cur : nref) (pop : list nref) :=
   fix scan (cs : list (nat * node)) : W (option walk_result) :=
     match cs with
     | [] => w_ret None
@@ -442,6 +478,7 @@ Definition wl_scan (orig_loop cur : nref) (pop : list nref) :=
                          | _ => dow n <- w_lift (get_node m cur); is_loop_match 40 m a cur n
                          end);
               if lm then
+                dow_ (if orig_is_segment m orig then note_missing_children m a cur else w_ret tt);
                 dow n <- w_lift (get_node m cur);
                 dow g <- goto_seg_match 40 m a cur n;
                 dow same <- w_lift (node_eq m cur orig_loop);
@@ -478,7 +515,7 @@ Definition wl_scan (orig_loop cur : nref) (pop : list nref) :=
 Lemma walk_loop_S f orig orig_loop cur npos pop :
   walk_loop (S f) m a orig orig_loop cur npos pop =
   (dow kids <- w_lift (container_children m cur);
-   dow found <- wl_scan orig_loop cur pop (filter (fun ic => (npos <=? node_pos (snd ic))%Z) (enumerate 0 kids));
+   dow found <- wl_scan orig orig_loop cur pop (filter (fun ic => (npos <=? node_pos (snd ic))%Z) (enumerate 0 kids));
    match found with
    | Some res => w_ret res
    | None =>
@@ -490,13 +527,13 @@ Lemma walk_loop_S f orig orig_loop cur npos pop :
    end).
 Proof. reflexivity. Qed.
 
-Lemma scan_wp orig_loop cur pop :
+Lemma scan_wp orig orig_loop cur pop :
   lref m cur -> (cur <> [] -> exists no, node_at ns orig_loop = Some no) ->
   forall cs, (forall i c, In (i, c) cs -> nth_error (kids m cur) i = Some c) ->
-  wp (wl_scan orig_loop cur pop cs) (fun found => match found with Some res => rpost cur res | None => True end).
+  wp (wl_scan orig orig_loop cur pop cs) (fun found => match found with Some res => rpost cur res | None => True end).
 Proof.
   intros Hl Horig. induction cs as [|[i c] rest IH]; intros Hc; [apply wp_ret; exact I|].
-  assert (Tail : wp (wl_scan orig_loop cur pop rest)
+  assert (Tail : wp (wl_scan orig orig_loop cur pop rest)
                     (fun found => match found with Some res => rpost cur res | None => True end)).
   { apply IH. intros i' c' Hin. apply Hc. right. exact Hin. }
   assert (Hcr : node_at ns (cur ++ [i]) = Some c).
@@ -513,6 +550,7 @@ Proof.
     destruct b.
     + eapply wp_bind; [apply (lm_wp cur Hl)|]. intros lm Hlm. destruct lm.
       * destruct (Hlm eq_refl) as [Hne [n [Hn LH]]].
+        apply wp_seq; [destruct (orig_is_segment m orig); [apply (note_missing_children_wp cur Hl) | wunit] | intros _].
         eapply wp_bind_lift; [apply get_node_ok, Hn|].
         eapply wp_bind; [apply (goto_top _ _ Hn LH)|]. intros g Hg.
         destruct (Horig Hne) as [no Hno]. destruct (node_eq_ok _ _ _ _ Hn Hno) as [same Hsame].
@@ -556,7 +594,7 @@ Proof.
   rewrite walk_loop_S.
   eapply wp_bind_lift; [apply container_children_kids, Hl|].
   eapply wp_bind.
-  - apply (scan_wp (removelast start) cur pop Hl).
+  - apply (scan_wp start (removelast start) cur pop Hl).
     + intros Hne. pose proof (pfx_nil_inv _ _ Hp Hne) as Hne'.
       destruct (node_at_removelast _ _ _ Hstart) as [E | [q [Hq _]]]; [congruence | eauto].
     + intros i c Hin. apply filter_In in Hin as [Hin _]. apply enumerate_nth in Hin as [_ Hin].
